@@ -120,7 +120,7 @@ int LLVMFuzzerTestOneInput(const uint8_t *data, size_t size)
 	sel = fz_u8(&in);
 	par = fz_u8(&in);
 	n = in.n;
-	if ((fz_skip("oid33") && fz_long_oid(in.p, n)) || (fz_skip("aia") && fz_aia_unknown(in.p, n, 0))) {
+	if (fz_skip_x509_shapes(in.p, n, 0)) {
 		FZ_EXCLUDED();
 		fz_end();
 		return 0;
